@@ -298,6 +298,109 @@ func checkC18(c *Ctx, r *Report) {
 	}
 	readsFields("(*"+cmT+").cacheSerializedCertHashes", "lastConfig", "currentConfig", "nextConfig")
 	readsFields("(*"+cmT+").cacheAddrComponent", "currentConfig", "nextConfig")
+	// ... and each certificate's hash really goes into what is advertised: from the point where the config is known
+	// to exist (function entry for the current one, the `!= nil` edge for the others) every path to a success return
+	// passes a use of that config's sha256 as an argument of append / AppendComponent / addrComponentForCert
+	usesHash := func(fnK string, fields ...string) {
+		f := c.Fn(fnK)
+		if f == nil {
+			return
+		}
+		okRet := func(in ssa.Instruction) bool {
+			ret, ok := in.(*ssa.Return)
+			return ok && isNilConst(retVal(ret, 0))
+		}
+		for _, fld := range fields {
+			// the value IS that config's sha256 (a load, a slice of it, its address), or the config itself handed to a
+			// local function: no merging with other values on the way
+			isShaOf := func(v ssa.Value) bool {
+				for d := 0; d < 6 && v != nil; d++ {
+					v = resolveLoad(strip2(v))
+					switch x := v.(type) {
+					case *ssa.Slice:
+						v = x.X
+					case *ssa.UnOp:
+						if x.Op != token.MUL {
+							return false
+						}
+						if isLoadOfField(cmT + "." + fld)(x) {
+							return true // the config itself
+						}
+						v = x.X
+					case *ssa.FieldAddr:
+						if fieldOfFA(x).Name() == "sha256" {
+							return isLoadOfField(cmT + "." + fld)(resolveLoad(strip2(x.X)))
+						}
+						return false
+					default:
+						return false
+					}
+				}
+				return false
+			}
+			uses := findInstrs(f, func(in ssa.Instruction) bool {
+				call, ok := in.(*ssa.Call)
+				if !ok {
+					return false
+				}
+				for _, a := range call.Call.Args {
+					if isShaOf(a) {
+						return true
+					}
+					if sl, isSl := a.(*ssa.Slice); isSl { // variadic append(hashes, x)
+						if al, isAl := sl.X.(*ssa.Alloc); isAl {
+							for _, ref := range *al.Referrers() {
+								if ia, isIA := ref.(*ssa.IndexAddr); isIA {
+									for _, r2 := range *ia.Referrers() {
+										if st, isSt := r2.(*ssa.Store); isSt && isShaOf(st.Val) {
+											return true
+										}
+									}
+								}
+							}
+						}
+					}
+				}
+				return false
+			})
+			q := &Cut{Fn: f, Target: okRet, Sep: inSet(uses)}
+			if fld != "currentConfig" {
+				present := edgeNil(func(v ssa.Value) bool { return isLoadOfField(cmT + "." + fld)(strip2(v)) }, false)
+				for _, b := range blocksDeep(f) {
+					for si := range b.Succs {
+						if present(b, si) {
+							q.FromEdges = append(q.FromEdges, CFGEdge{b, si})
+						}
+					}
+				}
+				if len(q.FromEdges) == 0 {
+					r2.Fail(fnK+": "+fld+" hash advertised when there is such a certificate", f.Pos(), "no `"+fld+" != nil` test found", "")
+					continue
+				}
+			}
+			w, n := q.Run(c)
+			r2.Check(w == "" && len(uses) >= 1, fnK+": the hash of "+fld+" goes into what is advertised", f.Pos(), n+1, "", "an address learned now stops verifying when the certificate rolls over (or the served certificate is not among the advertised hashes)", w)
+		}
+	}
+	usesHash("(*"+cmT+").cacheSerializedCertHashes", "lastConfig", "currentConfig", "nextConfig")
+	usesHash("(*"+cmT+").cacheAddrComponent", "currentConfig", "nextConfig")
+	if f := c.Fn("(*" + cmT + ").cacheAddrComponent"); f != nil {
+		sts := findInstrs(f, fieldWritePred(cmT+".addrComp"))
+		w, n := (&Cut{Fn: f, Sep: inSet(sts), Target: func(in ssa.Instruction) bool {
+			ret, ok := in.(*ssa.Return)
+			return ok && isNilConst(retVal(ret, 0))
+		}}).Run(c)
+		r2.Check(w == "" && len(sts) >= 1, "cacheAddrComponent: success stores the new component", f.Pos(), n+1, "", "the advertised certhashes stay those of an earlier period", w)
+	}
+	if f := c.Fn("(*" + cmT + ").cacheSerializedCertHashes"); f != nil {
+		apps := findInstrs(f, func(in ssa.Instruction) bool {
+			st, ok := in.(*ssa.Store)
+			return ok && isFieldWrite(in, cmT+".serializedCertHashes") && derivesFrom(st.Val, func(v ssa.Value) bool {
+				return isResultOfCall(v, 0, "github.com/multiformats/go-multihash.Encode") != nil
+			})
+		})
+		r2.Check(len(apps) >= 1, "cacheSerializedCertHashes: the encoded hashes are appended to the advertised list", f.Pos(), len(apps), "", "nothing is advertised", "")
+	}
 	if f := c.Fn("(*" + cmT + ").cacheSerializedCertHashes"); f != nil {
 		// each hash goes through multihash.Encode(.., SHA2_256) and is appended
 		sha2 := constIntObj(c, "github.com/multiformats/go-multihash", "SHA2_256")
